@@ -516,3 +516,73 @@ class LineCrash:
     def __exit__(self, *exc):
         sys.settrace(self.prev)
         return False
+
+
+class TwoTasks:
+    """Seeded scheduler of TWO tasks (real threads, baton passing: exactly one runs at any time).
+
+    Task 0 runs in the calling thread, task 1 in a helper thread.  Control changes hands only at the simulator's seams
+    (`yield_point`, called from the optimiser-step and GEMINI-evaluation hooks of the World), and the seeded PRNG decides at
+    every seam who runs next - so one record is one exactly repeatable interleaving of the two library calls."""
+
+    def __init__(self, rng, log=None, p_switch=0.5):
+        import threading
+        self._threading = threading
+        self.cv = threading.Condition()
+        self.turn = 0
+        self.alive = {0: True, 1: True}
+        self.ident = {}
+        self.rng = rng
+        self.log = log
+        self.p_switch = p_switch
+        self.switches = 0
+        self.error = {}
+
+    def me(self):
+        return self.ident.get(self._threading.get_ident())
+
+    def yield_point(self, *_):
+        me = self.me()
+        if me is None:
+            return
+        with self.cv:
+            other = 1 - me
+            if self.alive[other] and self.rng.random() < self.p_switch:
+                self.switches += 1
+                if self.log is not None:
+                    self.log.emit("SCHED", to=other, k=self.switches)
+                self.turn = other
+                self.cv.notify_all()
+                while self.turn != me:
+                    self.cv.wait()
+
+    def _finish(self, me):
+        with self.cv:
+            self.alive[me] = False
+            self.turn = 1 - me
+            self.cv.notify_all()
+
+    def _body(self, me, fn):
+        self.ident[self._threading.get_ident()] = me
+        with self.cv:
+            while self.turn != me:
+                self.cv.wait()
+        try:
+            fn()
+        except BaseException as e:          # re-raised (task 0) or reported (task 1) by run()
+            self.error[me] = e
+        finally:
+            self._finish(me)
+
+    def run(self, fn0, fn1):
+        """Runs fn0 (this thread) and fn1 (helper thread) interleaved; returns after both ended.  An exception of task 0 is
+        re-raised; one of task 1 is returned."""
+        t = self._threading.Thread(target=self._body, args=(1, fn1), daemon=True)
+        t.start()
+        self._body(0, fn0)
+        t.join(120)
+        if t.is_alive():
+            raise HarnessError("second task did not end")
+        if 0 in self.error:
+            raise self.error[0]
+        return self.error.get(1)
